@@ -20,7 +20,7 @@ CLAIMED.update({
         technique="contract-based deductive verification (Verus, functions extracted mechanically from /repo)",
         design="DESIGN.md section 5, C13"),
     "C17": dict(
-        text="Deductive proof (Verus) on asm(): for every mnemonic and every variable memory class the address offset equals the port the access must use (superchip read port +0x80, 3E write port +0x400, 3E+ write port +0x200, ordinary memory +0), in the Absolute, X-indexed and Y-indexed arms; read-modify-write instructions on split-port memory are rejected with an error by asm(); the operand text of every memory access asm() emits names `symbol + constant index + port offset + high-byte displacement` (so the port offset cannot be dropped on the way to the text); under cfg atari2600 generate_plusplus never emits INC/DEC on a superchip / on-chip-RAM variable (Kani, both operand forms, all variable types).",
+        text="Deductive proof (Verus) on asm(): for every mnemonic and every variable memory class the address offset equals the port the access must use (superchip read port +0x80, 3E write port +0x400, 3E+ write port +0x200, ordinary memory +0), in the Absolute, X-indexed and Y-indexed arms; read-modify-write instructions on split-port memory are rejected with an error by asm(); the operand text of every memory access asm() emits names `symbol + constant index + port offset + high-byte displacement` (so the port offset cannot be dropped on the way to the text); under cfg atari2600 generate_plusplus never emits INC/DEC on a superchip / on-chip-RAM variable (Kani, both operand forms, all variable types). The optimizer's knowledge transfer (U-opt) forgets every memory-derived register belief at a store: the read port and the write port of one cell are different operand texts, so no belief taken through one port survives a write through the other.",
         note="Partial: 'still computes what the source says' is C01; the load-add-store path taken instead of INC/DEC is only recorded, not interpreted.",
         technique="contract-based deductive verification (Verus assertions spliced after the offset computation of the real asm())",
         design="DESIGN.md section 5, C17"),
@@ -76,7 +76,7 @@ CLAIMED.update({
 
 CLAIMED.update({
     "C02": dict(
-        text="Deductive proof (Verus) on the two decision blocks of AssemblyCode::optimize, cut verbatim by their anchor comments: (A) the adjacent-pair rules mark an instruction for removal only when it is unprotected and the pair is one of the eliminations that are invisible by 6502 semantics (same-operand store/load, inverse transfers, dead first load, ORA #0, PLA/PHA, compare of two known-equal/different immediates), and swap only LDA with CLC/SEC; (B) the register-knowledge transfer is sound against the ISA write sets: a written register is afterwards unknown or holds exactly what the instruction put there, index changes invalidate `v,X`/`v,Y` knowledge, a written memory cell is no longer believed to sit in another register, the belief 'N/Z describe A' is held only when true, a reload is dropped only when unprotected and provably redundant; what is known after a JMP is forgotten (it would otherwise reach a join point through the JMP-to-next-label rule). BOUNDED stand-in (labelled, never counted as proved): the simulation corpus compiled at -O1 must compute what it computes at -O0.",
+        text="Deductive proof (Verus) on the two decision blocks of AssemblyCode::optimize, cut verbatim by their anchor comments: (A) the adjacent-pair rules mark an instruction for removal only when it is unprotected and the pair is one of the eliminations that are invisible by 6502 semantics (same-operand store/load, inverse transfers, dead first load, ORA #0, PLA/PHA, compare of two known-equal/different immediates), and swap only LDA with CLC/SEC; (B) the register-knowledge transfer is sound against the ISA write sets: a written register is afterwards unknown or holds exactly what the instruction put there, index changes invalidate `v,X`/`v,Y` knowledge, a written memory cell is no longer believed to sit in another register, the belief 'N/Z describe A' is held only when true, a reload is dropped only when unprotected and provably redundant; what is known after a JMP is forgotten (it would otherwise reach a join point through the JMP-to-next-label rule). BOUNDED stand-in (labelled, never counted as proved): the simulation corpus compiled at -O1 must compute what it computes at -O0. A store forgets every memory-derived belief (no no-alias assumption for STA/STX/STY). The compare-folding rule is sound in context only if the folded BEQ/BNE is the last reader of the compare: generate_branch_instruction is proved (Kani, all operators, signed and unsigned) to leave no branch after an unprotected BEQ/BNE.",
         note="Partial: whole-program equivalence of -O1 and -O0 is not decided: the iterator/Dummy plumbing, the multipeek look-ahead (modelled as arbitrary lines), the JMP-to-next-label rule, the knowledge resets at labels, and whether a removed flag-setting load is invisible in context are outside the two blocks. ISA write sets and the list of sound eliminations are the oracle (A-isa). A-noalias, A-immtext. -O2/-O3 are identical to -O1 in this library.",
         technique="contract-based deductive verification (Verus, code blocks extracted mechanically from /repo by anchors, free variables turned into parameters)",
         design="DESIGN.md section 5, C02"),
@@ -113,8 +113,8 @@ CLAIMED.update({
 
 CLAIMED.update({
     "C08": dict(
-        text="Narrow, partial: Deductive proof (Verus) of the clause '#undef removes exactly the named macro' at the level the code allows: the real nested search loops of Context::undefine return the position (chunk, offset) of the first entry carrying the given name, or the table length when the name is absent, and the three parallel tables and the regex set of that chunk are updated at exactly that position (index expressions extracted verbatim).",
-        note="NOT decided (and the larger part of C08): whole-identifier matching, no expansion inside strings or longer identifiers, positional argument substitution, nested expansion, the >100-macro chunking, and the -D option. These are semantics of the regex crate (\\b, captures, replace_all) and of str::splitn, for which no specifications exist, and the table updates use last_mut()/IndexMut on Vec<Vec<_>> and a BTreeMap, outside Verus' subset; Kani on String tables is intractable here (a 10-line block over a String-keyed table did not finish in 18 minutes).",
+        text="Context::define and Context::define_ex whole (last_mut updates written as pop / push of the last chunk): the four chunked tables stay in step and every chunk's RegexSet is built from that chunk's current patterns (so a macro in any slot, including the last of a 100-entry chunk, is seen by replace_all's set), the macro is appended to the last chunk and a full chunk is followed by a fresh one.  Narrow, partial: Deductive proof (Verus) of the clause '#undef removes exactly the named macro' at the level the code allows: the real nested search loops of Context::undefine return the position (chunk, offset) of the first entry carrying the given name, or the table length when the name is absent, and the three parallel tables and the regex set of that chunk are updated at exactly that position (index expressions extracted verbatim).",
+        note="NOT decided (and the larger part of C08): whole-identifier matching, no expansion inside strings or longer identifiers, positional argument substitution, nested expansion, what RegexSet / Regex match (only which patterns they were built from is tracked), and the -D option. These are semantics of the regex crate (\\b, captures, replace_all) and of str::splitn, for which no specifications exist, the removals of undefine use IndexMut on Vec<Vec<_>> (only their index expressions are checked) and the flat map `defs` is a BTreeMap, outside Verus' subset (define / define_ex are verified with their last_mut() updates written as pop / push of the last chunk); Kani on String tables is intractable here (a 10-line block over a String-keyed table did not finish in 18 minutes).",
         technique="contract-based deductive verification (Verus loop invariants on the loops extracted mechanically from /repo)",
         design="DESIGN.md section 5, C08"),
 })
